@@ -551,6 +551,45 @@ def m_C10(run):
             if v == "pending" and now is not None and now >= deadline:
                 f.append("op %d still pending at tick %d, past its deadline %d" % (o, now, deadline))
                 break
+    f += masked_by_timeout(run)
+    return f
+
+
+def masked_by_timeout(run):
+    """A tell with a zero timeout into a mailbox that is certainly empty and open completes in its
+    first poll, so it must return Ok: timeout() polls the operation before the timer.  (Certainly
+    empty: every earlier operation on that actor has failed to enter, or has had its handler
+    entered; no hook issues operations in the script; the actor is running and not stopping.)"""
+    f = []
+    if run.realtime or any(m["hook"] for m in run.ops.values()):
+        return f
+    for o, m in run.ops.items():
+        if m["tmo"] != 0 or m["kind"] != "tell" or m["round"] is None or m["target"] is None:
+            continue
+        r, a = m["round"], m["target"]
+        if run.res(r, o) != "timeout" or r == 0:
+            continue
+        line = run.aline(r - 1, a)
+        evs = events(line)
+        if tok(line, "join=") != "running" or "ST0" in evs or "ST1" in evs or tok(line, "up=") != "1":
+            continue
+        if any(k[1] == a for k in run.kills if k[0] < r):
+            continue
+        handled = set(he_of(evs))
+        empty = True
+        for o2, m2 in run.ops.items():
+            if o2 == o or m2["target"] != a or m2["round"] is None or m2["round"] >= r:
+                continue
+            v2 = run.res(r - 1, o2)
+            if v2 == "send" or o2 in handled:
+                continue
+            if m2["kind"] == "stop" or v2 is None:
+                empty = False
+                break
+            empty = False
+            break
+        if empty:
+            f.append("tell %d with a zero timeout into the empty mailbox of actor %d returned Timeout in round %d" % (o, a, r + 1))
     return f
 
 
